@@ -112,7 +112,7 @@ VARS = [("mem", None), ("mem2", "newton"), ("mem2", "scipy")]
 def judge(ctx, c, hard=False):
     mom = np.asarray(c["moments"], float)
     nd = int(c["nd"])
-    d = np.arange(nd) * 360.0 / nd
+    d = float(c.get("start", 0.0)) + np.arange(nd) * 360.0 / nd
     out = {}
     # precondition of the fidelity clause: "a distribution that the direction grid resolves". For the shipped
     # hard cases that is decided by the circular spread sqrt(2(1-r)) of the moments being >= 1.3 bins (cases 0-3,
@@ -177,8 +177,11 @@ def judge(ctx, c, hard=False):
         wit = lambda: dict(c, method=tag, mirror=True)  # noqa
         ok, Dm = guarded(ctx, "C06.no-exception", lambda: estimate(mm, d, method, sm), wit, key=f"C06:raised:{tag}")
         if ok:
-            idx = (-np.arange(nd)) % nd
-            ctx.close(f"C06.mirror:{tag}", Dm, D[idx], atol=rtol * scale, rtol=rtol, case=wit, key=f"C06:mirror:{tag}")
+            # index j(i) with d[j] == -d[i] (mod 360); grids that are not closed under negation have no mirror partner
+            dev = np.abs((d[None, :] + d[:, None] + 180.0) % 360.0 - 180.0)
+            idx = np.argmin(dev, axis=1)
+            if np.all(dev[np.arange(nd), idx] < 1e-9):
+                ctx.close(f"C06.mirror:{tag}", Dm, D[idx], atol=rtol * scale, rtol=rtol, case=wit, key=f"C06:mirror:{tag}")
 
 
 def judge_batch(ctx, c):
@@ -268,7 +271,9 @@ def run_shard(ctx, shard):
         nd = int(rng.choice(NDS))
         mom, lobes = mixture_moments(rng, nd)
         c = {"moments": mom, "nd": nd, "lobes": lobes, "allk": bool(shard["allk"]) and nd <= 72,
-             "ks": [int(k) for k in rng.integers(0, nd, 4)]}
+             "ks": [int(k) for k in rng.integers(0, nd, 4)],
+             # the grid need not start at 0: half a bin off, or written from -180
+             "start": float(rng.choice([0.0, 0.0, 0.5 * 360.0 / nd, -180.0, 137.25]))}
         judge(ctx, c)
         lam = rng.uniform(-1, 1, 4)
         lam = lam / np.linalg.norm(lam) * rng.uniform(0, 10)
